@@ -103,3 +103,25 @@ def untyped(n):
     if n > 2:
         return Circle(n)
     return Square(n)
+
+
+def local_thing(n: int):
+    """Returns an instance of a class that no static analysis of this module can see."""
+
+    class Local(Shape):
+        def sides(self) -> int:
+            return n
+
+    return Local("local")
+
+
+def tags(n: int) -> set[str]:
+    return {"t%d" % i for i in range(n if n < 4 else 4)}
+
+
+def join_names(xs: list[str]) -> str:
+    return ",".join(xs)
+
+
+def count_tags(ts: set[str]) -> int:
+    return len(ts)
